@@ -405,6 +405,92 @@ pub fn threads_child(args: &[String]) -> i32 {
     0
 }
 
+/// Number of symbols of the requirement-object operation alphabet: 3 validations + 3 categories x {add, remove} x 2 spellings.
+pub const REQ_OP_SYMBOLS: u64 = 15;
+
+/// One long-lived VecSignedHeaderRequirements object: validations (of three requests) and add_* / remove_* edits in any
+/// order. Each validation must come out as the reference says for the requirements declared at that moment (which is
+/// also what a freshly built, equal object gives). None = it does.
+pub fn requirement_ops(seq: &[u64]) -> Option<(usize, String, String)> {
+    use scratchstack_aws_signature::VecSignedHeaderRequirements;
+    use std::collections::BTreeSet;
+    let now = e2e::base_instant();
+    let mk = |signed_all: bool, with_headers: bool| -> WireReq {
+        let mut plan = e2e::base_plan(Carrier::Header);
+        if with_headers {
+            plan.headers.push(("X-Req".into(), b"r".to_vec()));
+            plan.headers.push(("X-Opt".into(), b"o".to_vec()));
+            plan.headers.push(("X-Amz-Meta-Owner".into(), b"me".to_vec()));
+            if signed_all {
+                plan.signed.extend(["x-req".to_string(), "x-opt".to_string(), "x-amz-meta-owner".to_string()]);
+            }
+        }
+        WireReq::from_wire(&build(&plan).wire)
+    };
+    let requests = [mk(true, true), mk(false, true), mk(false, false)];
+    let names: [[&str; 2]; 3] = [["X-Req", "x-req"], ["X-Opt", "x-opt"], ["X-Amz-Meta-", "x-amz-meta-"]];
+    let mut real = VecSignedHeaderRequirements::default();
+    let mut model: [BTreeSet<String>; 3] = [BTreeSet::new(), BTreeSet::new(), BTreeSet::new()];
+    let mut text: Vec<String> = Vec::new();
+    for (pos, op) in seq.iter().enumerate() {
+        if *op < 3 {
+            let w = &requests[*op as usize];
+            text.push(format!("validate(request {})", op));
+            let mut cfg = Cfg::basic(now);
+            cfg.reqs = sut::ReqSpec {
+                always: model[0].iter().cloned().collect(),
+                if_in_request: model[1].iter().cloned().collect(),
+                prefixes: model[2].iter().cloned().collect(),
+                how: None,
+            };
+            let received = w.as_received().ok()?;
+            let prov = ProvSpec::standard();
+            let reference = refmodel::verify::validate(&received, &cfg.to_ref(), &mut |a| prov.ref_answer(a));
+            let req = w.to_http().ok()?;
+            let mut provider = prov.to_provider();
+            let r = std::panic::catch_unwind(std::panic::AssertUnwindSafe(|| {
+                env::run_bounded(
+                    scratchstack_aws_signature::sigv4_validate_request(req, &cfg.region, &cfg.service, &mut provider, sut::to_chrono(now), &real, cfg.options()),
+                    64,
+                )
+            }));
+            let observed = match r {
+                Err(p) => format!("PANIC {}", sut::panic_message(p)),
+                Ok((None, _)) => "STUCK".to_string(),
+                Ok((Some(Ok(_)), _)) => "Ok".to_string(),
+                Ok((Some(Err(e)), _)) => format!("Err({})", sut::describe_error(e).kind.map(|k| k.name()).unwrap_or("foreign")),
+            };
+            let expected = match reference.error {
+                None => "Ok".to_string(),
+                Some(k) => format!("Err({})", k.name()),
+            };
+            if observed != expected {
+                return Some((pos, format!("{} after {:?} (declared: always {:?}, if-in-request {:?}, prefixes {:?})", expected, text, model[0], model[1], model[2]), observed));
+            }
+        } else {
+            let k = (*op - 3) as usize;
+            let name = names[k / 4][k % 2];
+            let add = (k / 2) % 2 == 0;
+            let cat = k / 4;
+            match (cat, add) {
+                (0, true) => real.add_always_present(name),
+                (0, false) => real.remove_always_present(name),
+                (1, true) => real.add_if_in_request(name),
+                (1, false) => real.remove_if_in_request(name),
+                (2, true) => real.add_prefix(name),
+                (_, _) => real.remove_prefix(name),
+            }
+            if add {
+                model[cat].insert(name.to_ascii_lowercase());
+            } else {
+                model[cat].remove(&name.to_ascii_lowercase());
+            }
+            text.push(format!("{}_{}({:?})", if add { "add" } else { "remove" }, ["always_present", "if_in_request", "prefix"][cat], name));
+        }
+    }
+    None
+}
+
 pub fn run(ctx: &Ctx) -> Report {
     let thorough = ctx.tier.thorough();
     env::set_log_mode(env::LOG_OFF);
@@ -494,6 +580,37 @@ pub fn run(ctx: &Ctx) -> Report {
                     index: 500_000 + i,
                     what: format!("outcome-depends-on-what-the-authenticator-was-used-for-before(step {} of {:?})", pos, seq),
                     case: json!({"authenticator_ops": seq, "carrier": format!("{:?}", carrier)}),
+                    expected: exp,
+                    observed: obs,
+                    known: None,
+                });
+            }
+        });
+        st = st.merge(part);
+    }
+
+    // ---- 6. one requirements object used and edited between validations: every sequence of validations (three
+    //         requests) and add_* / remove_* edits (three categories x two spellings) on ONE
+    //         VecSignedHeaderRequirements; each validation judged by the reference for what is declared at that moment
+    {
+        let depth = if thorough { 5u32 } else { 4 };
+        let nseq = enumr::seq_count(REQ_OP_SYMBOLS, depth);
+        let part = crate::core::par_sweep(nseq, |i, st| {
+            let seq = enumr::seq_decode(i, REQ_OP_SYMBOLS, depth);
+            // sequences without a validation after the last edit add nothing; sequences without any validation nothing at all
+            if seq.is_empty() || *seq.last().unwrap() >= 3 {
+                return;
+            }
+            st.evaluations += 1;
+            st.validated += 1;
+            st.transitions += seq.len() as u64;
+            st.nontrivial(&("requirement-ops", &seq));
+            st.outcome("requirement-ops");
+            if let Some((pos, exp, obs)) = requirement_ops(&seq) {
+                st.violation(Violation {
+                    index: 700_000 + i,
+                    what: format!("outcome-depends-on-what-the-requirements-object-went-through(step {} of {:?})", pos, seq),
+                    case: json!({"requirement_ops": seq}),
                     expected: exp,
                     observed: obs,
                     known: None,
@@ -842,7 +959,7 @@ pub fn run(ctx: &Ctx) -> Report {
     Report {
         stats: st,
         rule: format!(
-            "corpus of {} requests (one per stage of the documented order on each carrier, valid, wrong signature, with and without a session token; folded form, S3 + token, same credential under three tokens, five refusals that stop half-way through an element, six requests under server clocks 10 minutes apart incl. the edges of each window, two other server configurations, four other renderings of the timestamp on both carriers, pairs of equally long bodies of 1023 .. 200 000 bytes with different content and one body under the other's signature); outcome = Ok payload digest (returned parts, body, principal) or error kind; fresh-state outcome of each element = its outcome when validated first in a fresh process. (1) every sequence of 1..{} validations in one process: each step equals its fresh-state outcome; (2) joint iteration orders of the crate's query and header maps exhausted (projection on <= 4 keys each) with identical canonical bytes and outcome, incl. the prefix rule whose error is raised inside a map iteration; (3) one fresh process per corpus element validated first{}; (4a) real threads under a controlled scheduler whose scheduling points are the crate's own log records and every provider event: 6 two-thread pairs ({}), 3 threads at preemption bound {}{}; (4b) 2-3 validation futures multiplexed on one thread with every order of polls (pending body / readiness / key future); built-in canaries (shared scratch buffer) must be caught by 4a and 4b on every run; plus a free-running barrier pass (sampling, supplementary); (5) every sequence of 1..2 (thorough 3) operations {{prevalidate, validate_signature, validate_signature on a clone}} x 3 configurations x 5 server clocks on one authenticator object (unstable API), each operation judged alone. states = distinct outcomes / outcome vectors",
+            "corpus of {} requests (one per stage of the documented order on each carrier, valid, wrong signature, with and without a session token; folded form, S3 + token, same credential under three tokens, five refusals that stop half-way through an element, six requests under server clocks 10 minutes apart incl. the edges of each window, two other server configurations, four other renderings of the timestamp on both carriers, pairs of equally long bodies of 1023 .. 200 000 bytes with different content and one body under the other's signature); outcome = Ok payload digest (returned parts, body, principal) or error kind; fresh-state outcome of each element = its outcome when validated first in a fresh process. (1) every sequence of 1..{} validations in one process: each step equals its fresh-state outcome; (2) joint iteration orders of the crate's query and header maps exhausted (projection on <= 4 keys each) with identical canonical bytes and outcome, incl. the prefix rule whose error is raised inside a map iteration; (3) one fresh process per corpus element validated first{}; (4a) real threads under a controlled scheduler whose scheduling points are the crate's own log records and every provider event: 6 two-thread pairs ({}), 3 threads at preemption bound {}{}; (4b) 2-3 validation futures multiplexed on one thread with every order of polls (pending body / readiness / key future); built-in canaries (shared scratch buffer) must be caught by 4a and 4b on every run; plus a free-running barrier pass (sampling, supplementary); (5) every sequence of 1..2 (thorough 3) operations {{prevalidate, validate_signature, validate_signature on a clone}} x 3 configurations x 5 server clocks on one authenticator object (unstable API), each operation judged alone; (6) every sequence of up to 4 (thorough 5) steps over 15 symbols — validate one of three requests (everything signed, the declared headers sent but unsigned, no such headers) or add_* / remove_* (always / conditional / prefix, each name in two spellings) — on ONE VecSignedHeaderRequirements object used and edited between validations, each validation judged by the reference verifier for what is declared at that moment. states = distinct outcomes / outcome vectors",
             n, l, if thorough { " (4 rounds)" } else { "" }, if thorough { "all interleavings" } else { "all schedules with <= 3 preemptions" }, if thorough { 3 } else { 2 }, if thorough { ", 4 threads at bound 2" } else { "" }
         ),
         bounds: json!({"corpus": n, "history_length": l}),
